@@ -168,7 +168,10 @@ def simRenameField (old new : String) (dbColumn dbTable : Option String) (m : Mo
         match dbColumn with
         | some c => if c != "" then dSet f.attrs "db_column" (quo c) else dDel f.attrs "db_column"
         | none => dDel f.attrs "db_column"
-    .ok ((m.removeField old).addField { f with name := new, attrs := attrs })
+    let m' := (m.removeField old).addField { f with name := new, attrs := attrs }
+    -- unique_together / index_together follow the field to its new name
+    let ren := fun (entry : List String) => entry.map (fun n => if n == old then new else n)
+    .ok { m' with uniqueTogether := m'.uniqueTogether.map ren, indexTogether := m'.indexTogether.map ren }
 
 def simChangeMeta (e : Env) (prop : String) (value : MetaVal) (m : ModelSig) : Except SimErr ModelSig :=
   if !e.supportedMeta prop then .error .metaUnsupported
